@@ -170,20 +170,24 @@ def _crash_check(pid, tier, own, use_atomic=False, rule_extra=""):
             if mask:
                 # entries with equal payloads are indistinguishable: compare as multisets
                 okm = True
-                for v in set(es):
-                    n_got = sum(1 for x in got if x == v)
-                    n_written = sum(1 for j, x in enumerate(es) if x == v and (mask >> j) & 1)
+                for val in set(es):
+                    n_got = sum(1 for x in got if x == val)
+                    n_written = sum(1 for j, x in enumerate(es) if x == val and (mask >> j) & 1)
                     n_before = 0   # the same payload may also have been acknowledged earlier
                     for e in groups[g][:groups[g].index(crash_ev)] if crash_ev in groups[g] else []:
-                        if e.get("ev") == "append" and e.get("res") == "ok" and (e.get("k"), e.get("size")) == v:
+                        if e.get("ev") == "append" and e.get("res") == "ok" and (e.get("k"), e.get("size")) == val:
                             n_before += 1
                         if e.get("ev") == "batch" and e.get("res") == "ok":
-                            n_before += sum(1 for y in e.get("es", []) if tuple(y) == v)
+                            n_before += sum(1 for y in e.get("es", []) if tuple(y) == val)
                     if n_got > n_written + n_before:
                         okm = False
                 div["recovered_only_completed_writes"] = okm
             else:
                 div["recovered_only_completed_writes"] = None
+            # the recorded finding is about writes that had NOT all been made when the process died; a batch whose
+            # writes were all made is recovered whole by the unchanged engine
+            wt, wd = r0.get("op_writes_total"), r0.get("op_writes_done")
+            div["all_batch_writes_done"] = None if wt is None else bool(wt > 0 and wd >= wt)
         if not own(div):
             ck.unattributed += 1
             continue
